@@ -43,6 +43,36 @@ def merge(res, o, job):
     res.harness_errors.extend(o["harness_errors"])
 
 
+def slow_batches(repo, tier, seed):
+    from rig import c19_rig, proxy_rig
+    c19_rig.prebuild(repo)
+    lay = proxy_rig.layout(repo)
+    W, _S = c19_rig.gen_fault_cases(lay, c19_rig.ioctls(repo), seed, tier)
+    slow = [c for c in W if c["kind"] == "slow" and c["state"] == "S2"]
+    nb = 4 if tier == "quick" else 16
+    return [{"kind": "fault", "seed": seed, "tier": tier, "index": 9000 + i, "witnesses": 2, "prop": "C18", "cases": slow[i::nb]}
+            for i in range(nb) if slow[i::nb]]
+
+
+def _slow_one(args):
+    repo, batch = args
+    from rig import c19_rig
+    return c19_rig.run_fault_batch(repo, batch)
+
+
+def merge_slow(res, o):
+    for s in o["sigs"]:
+        res.sigs.add("slow:" + s)
+    for k, v in o["counters"].items():
+        if k.startswith("slow_") or k in ("witness_frames_checked", "daemon_alive_checks"):
+            res.count("slowwriter:" + k, v)
+    for v in o["violations"]:
+        res.violation(v["key"].replace("model:C19:", "model:C18:slow-writer:"), v["detail"], job="slow-writer", case=v["extra"].get("batch", {}).get("index"),
+                      extra=v["extra"])
+    res.inconclusive.extend(o["inconclusive"])
+    res.harness_errors.extend(o["harness_errors"])
+
+
 def custom(spec, tier, seed, res, repo):
     from rig import proxy_rig
     from vflib import driver
@@ -58,6 +88,14 @@ def custom(spec, tier, seed, res, repo):
     with concurrent.futures.ProcessPoolExecutor(max_workers=workers) as ex:
         for o in ex.map(_one, [(repo, s) for s in scheds]):
             merge(res, o, "rig")
+    # Subscribers that write a well-formed request slowly (its first bytes, frames captured meanwhile, then the rest):
+    # raw protocol clients beside two witnesses of the client library, see rig/c19_rig.py FaultBatch.run_slow.  A client
+    # that keeps up must get its confirm and go on receiving every frame whatever the pieces its request arrives in.
+    bs = slow_batches(repo, tier, seed)
+    if bs:
+        with concurrent.futures.ProcessPoolExecutor(max_workers=max(1, min(driver.NCPU, len(bs)))) as ex:
+            for o in ex.map(_slow_one, [(repo, b) for b in bs]):
+                merge_slow(res, o)
     # an all-inconclusive run observed nothing
     if res.inconclusive and res.counters.get("frames_delivered", 0) == 0:
         res.harness_errors.append("no frame was delivered in any schedule (all inconclusive)")
@@ -67,6 +105,19 @@ def custom_replay(spec, rp, res, repo):
     from rig import proxy_rig
     _prebuild(repo)
     sched = rp.get("extra", {}).get("schedule")
+    if not sched and rp.get("extra", {}).get("batch"):
+        from rig import c19_rig
+        c19_rig.prebuild(repo)
+        b = dict(rp["extra"]["batch"])
+        if rp["extra"].get("case"):
+            b["cases"] = [rp["extra"]["case"]]
+            merge_slow(res, c19_rig.run_fault_batch(repo, b))
+            if any(v.key == rp["key"] for v in res.violations):
+                return
+        for u in slow_batches(repo, b["tier"], rp.get("seed", b["seed"])):
+            if u["index"] == b["index"]:
+                merge_slow(res, c19_rig.run_fault_batch(repo, u))
+        return
     if not sched:
         res.harness_errors.append("replay file carries no schedule")
         return
